@@ -236,3 +236,41 @@ func IrregularIDs(t *sim.T, m *gtfsrt.FeedMessage) (*gtfsrt.FeedMessage, int) {
 	}
 	return c, n
 }
+
+// PerturbValues returns a copy of the message in which identifiers (entity ids, trip ids, Mercury
+// updated_at) stay as they are while other values change: a sibling input for caches whose key covers
+// too little of what they cache.
+func PerturbValues(t *sim.T, m *gtfsrt.FeedMessage) (*gtfsrt.FeedMessage, int) {
+	c := proto.Clone(m).(*gtfsrt.FeedMessage)
+	n := 0
+	for _, e := range c.Entity {
+		if a := e.GetAlert(); a != nil {
+			if proto.HasExtension(a, gtfsrt.E_MercuryAlert) {
+				ma := proto.GetExtension(a, gtfsrt.E_MercuryAlert).(*gtfsrt.MercuryAlert)
+				if ma.CreatedAt != nil {
+					ma.CreatedAt = pu64(*ma.CreatedAt + 3600)
+				}
+				ma.DisplayBeforeActive = pu64(ma.GetDisplayBeforeActive() + 60)
+				ma.HumanReadableActivePeriod = tr1("changed period")
+				n++
+			}
+			if t.Chance(1, 2) {
+				a.HeaderText = tr1("changed header")
+				n++
+			}
+		}
+		if tu := e.GetTripUpdate(); tu != nil && t.Chance(1, 2) {
+			for _, u := range tu.StopTimeUpdate {
+				if u.Arrival != nil && u.Arrival.Time != nil {
+					u.Arrival.Time = pi64(*u.Arrival.Time + 60)
+					n++
+				}
+			}
+		}
+		if vp := e.GetVehicle(); vp != nil && vp.Position != nil && t.Chance(1, 2) {
+			vp.Position.Latitude = pf32(vp.Position.GetLatitude() + 0.5)
+			n++
+		}
+	}
+	return c, n
+}
